@@ -746,6 +746,84 @@ class SurrogatesS(Subject):
                 ("original_data_fft", lambda o: o.original_data_fft())]
 
 
+class EventSeriesS(Subject):
+    """No public mutators: takes part in the purity monitor (C06) only."""
+    name = "EventSeries"
+    deny = ("event_analysis_significance", "make_event_matrix",
+            "event_synchronization", "event_coincidence_analysis",
+            "get_event_matrix")
+
+    def gen(self, rng, small=True):
+        T, N = int(rng.integers(24, 40)), int(rng.integers(3, 5))
+        ev = (rng.random((T, N)) < 0.25).astype(int)
+        ev[1, :] = 1
+        ev[T - 2, :] = 1
+        return {"ev": ev, "taumax": float(rng.choice([2., 3., 5.])),
+                "lag": float(rng.choice([0., 1.]))}
+
+    def build(self, m):
+        from pyunicorn.eventseries import EventSeries
+        return EventSeries(_c(m["ev"]), taumax=m["taumax"], lag=m["lag"])
+
+    def mutators(self):
+        return []
+
+    def extra_queries(self, obj, m):
+        qs = []
+        for meth in ("ES", "ECA"):
+            for sym in ("directed", "symmetric", "antisym", "mean", "max",
+                        "min"):
+                for wt in (("symmetric",) if meth == "ES" else
+                           ("symmetric", "retarded", "advanced")):
+                    qs.append((f"event_series_analysis({meth},{sym},{wt})",
+                               lambda o, a=meth, b=sym, c=wt:
+                               o.event_series_analysis(
+                                   method=a, symmetrization=b,
+                                   window_type=c)))
+        return qs
+
+
+class CouplingAnalysisS(Subject):
+    """No public mutators: takes part in the purity monitor (C06) only."""
+    name = "CouplingAnalysis"
+
+    def gen(self, rng, small=True):
+        T, N = int(rng.integers(30, 50)), int(rng.integers(2, 4))
+        x = rng.normal(size=(T, N))
+        x[1:, 0] += 0.6 * x[:-1, -1]
+        return {"x": np.round(x * 32) / 32}
+
+    def build(self, m):
+        from pyunicorn.funcnet import CouplingAnalysis
+        return CouplingAnalysis(_c(m["x"]), silence_level=3)
+
+    def mutators(self):
+        return []
+
+    def queries(self, obj, m):
+        qs = []
+        for tau in (0, 1, 3, 5):
+            for lm in ("all", "max"):
+                qs.append((f"cross_correlation(tau_max={tau},{lm})",
+                           lambda o, t=tau, l=lm: o.cross_correlation(
+                               tau_max=t, lag_mode=l)))
+            for est in ("gauss", "binning"):
+                qs.append((f"mutual_information(tau_max={tau},{est})",
+                           lambda o, t=tau, e=est: o.mutual_information(
+                               tau_max=t, estimator=e, bins=3,
+                               lag_mode="all")))
+            if tau:
+                qs.append((f"information_transfer(tau_max={tau},gauss)",
+                           lambda o, t=tau: o.information_transfer(
+                               tau_max=t, estimator="gauss",
+                               lag_mode="max")))
+        return qs
+
+
+def purity_only_subjects():
+    return [EventSeriesS(), CouplingAnalysisS()]
+
+
 def all_subjects():
     return [NetworkS(False), NetworkS(True), InteractingS(), GeoNetworkS(),
             ClimateNetworkS(), TsonisS(), SpearmanS(), RecurrencePlotS(),
